@@ -5,6 +5,7 @@ import (
 	"fmt"
 	"strings"
 	"testing"
+	"time"
 
 	"pgregory.net/rapid"
 
@@ -57,6 +58,57 @@ func TestScenarios(t *testing.T) {
 		nt := res.PanicsRaised >= 2 && res.PanicTypes >= 2 && res.PollersRan
 		ev.Case(nt, ev.Hash(p.String()), func() string {
 			return fmt.Sprintf("%s => panics=%d types=%d statusCalls=%d exactChecks=%d", p, res.PanicsRaised, res.PanicTypes, res.StatusCalls, res.ExactPendingChecks)
+		})
+	})
+}
+
+// TestStableStates builds the stable states of the quantifier directly: p workers pinned by gated tasks, k tasks
+// queued behind them, for narrow and wide lanes; the pending count is compared exactly at every settle.
+func TestStableStates(t *testing.T) {
+	rt.Check(t, 60, 6000, func(t *rapid.T) {
+		lanes := rapid.SampledFrom([]int{1, 2, 3, 4, 8, 31, 32, 33, 40, 64, 65}).Draw(t, "laneSize")
+		queue := rapid.IntRange(0, 3).Draw(t, "queueSize")
+		pinned := lanes
+		if rapid.IntRange(0, 3).Draw(t, "pinAll") == 0 && lanes > 1 {
+			pinned = rapid.IntRange(1, lanes-1).Draw(t, "pinned")
+		}
+		p := ls.Program{LaneSize: lanes, QueueSize: queue, Timeout: 100 * time.Millisecond}
+		p.Ops = append(p.Ops, ls.Op{Kind: ls.OpSettle})
+		for l := 0; l < pinned; l++ {
+			p.Ops = append(p.Ops, ls.Op{Kind: ls.OpPush, Lane: l, Task: ls.TaskSpec{Kind: ls.TGated, Gate: 1}})
+		}
+		p.Ops = append(p.Ops, ls.Op{Kind: ls.OpSettle})
+		rounds := rapid.IntRange(1, queue+2).Draw(t, "rounds")
+		for r := 0; r < rounds; r++ {
+			stride := rapid.SampledFrom([]int{1, 1, 2, 3}).Draw(t, "stride")
+			for l := lanes - 1; l >= 0; l -= stride {
+				kind := ls.TInstant
+				if rapid.IntRange(0, 5).Draw(t, "panics") == 0 {
+					kind = ls.TPanic
+				}
+				p.Ops = append(p.Ops, ls.Op{Kind: ls.OpPush, Lane: l, Task: ls.TaskSpec{Kind: kind, Panic: r + l}})
+			}
+			p.Ops = append(p.Ops, ls.Op{Kind: ls.OpSettle}, ls.Op{Kind: ls.OpStatus})
+		}
+		if rapid.Bool().Draw(t, "release") {
+			p.Ops = append(p.Ops, ls.Op{Kind: ls.OpOpen, Gate: 1}, ls.Op{Kind: ls.OpSettle})
+		}
+		res, bubble := ls.RunInBubble(t, p)
+		if bubble != "" {
+			ev.Inconclusive(1)
+			return
+		}
+		own := ls.Own(res, "C14")
+		if res.PanicsRaised > 0 {
+			own = append(own, ls.Own(res, "C06")...)
+		}
+		if len(own) > 0 {
+			t.Fatalf("%s\nstable state: lanes=%d queue=%d pinned=%d rounds=%d\nprogram: %s", strings.Join(own, "\n"), lanes, queue, pinned, rounds, p)
+		}
+		ev.Label(fmt.Sprintf("stable_state:lanes=%d", lanes))
+		ev.LabelN("exact_pending_checks_at_rest", int64(res.ExactPendingChecks))
+		ev.Case(pinned == lanes && res.Accepted > lanes, ev.Hash("stable", p.String()), func() string {
+			return fmt.Sprintf("stable state lanes=%d queue=%d pinned=%d rounds=%d: accepted=%d started=%d exactChecks=%d", lanes, queue, pinned, rounds, res.Accepted, res.Started, res.ExactPendingChecks)
 		})
 	})
 }
